@@ -483,14 +483,17 @@ static void run_line(void)
 		set(K_IN, hid(1), s, 1); printf("0");
 	}
 	else if (!strcmp(op, "inpipe")) { bytes b = unhex(tok[2]); set(K_IN, hid(1), in_pipe_new(b.p, b.n), 1); free(b.p); printf("0"); }
-	else if (!strcmp(op, "inw") || !strcmp(op, "intrunc") || !strcmp(op, "inpatch") || !strcmp(op, "inapp"))
+	else if (!strcmp(op, "inw") || !strcmp(op, "intrunc") || !strcmp(op, "inpatch") || !strcmp(op, "inapp") || !strcmp(op, "pinw") || !strcmp(op, "pinapp"))
 	{
-		ostream* o = OUT(2); size_t n = o->n; unsigned char* p = malloc(n + strlen(ntok > 3 ? tok[ntok - 1] : "") + 8);
+		int piped = op[0] == 'p';          /* pinw / pinapp: the same bytes behind a stream that cannot seek */
+		ostream* o;
+		if (piped) ++op;
+		o = OUT(2); size_t n = o->n; unsigned char* p = malloc(n + strlen(ntok > 3 ? tok[ntok - 1] : "") + 8);
 		memcpy(p, o->buf, n);
 		if (!strcmp(op, "intrunc")) { size_t k = (size_t)atol(tok[3]); if (k < n) n = k; }
 		else if (!strcmp(op, "inpatch")) { size_t off = (size_t)atol(tok[3]); bytes b = unhex(tok[4]); if (off + b.n <= n) memcpy(p + off, b.p, b.n); free(b.p); }
 		else if (!strcmp(op, "inapp")) { bytes b = unhex(tok[3]); memcpy(p + n, b.p, b.n); n += b.n; free(b.p); }
-		set(K_IN, hid(1), in_new(p, n), 1); free(p); printf("%zu", n);
+		set(K_IN, hid(1), piped ? in_pipe_new(p, n) : in_new(p, n), 1); free(p); printf("%zu", n);
 	}
 	else if (!strcmp(op, "rfh")) { int ma = -7, mi = -7; e = sbdf_fh_read(IN(1)->f, &ma, &mi); printf("%d", e); if (!e) printf(" %d %d", ma, mi); }
 	else if (!strcmp(op, "rtm")) { sbdf_tablemetadata* t = SENTINEL; e = sbdf_tm_read(IN(1)->f, &t); printf("%d", e); if (e) printf(" #out=%s", outstate(t)); set(K_TM, hid(2), e ? 0 : t, 1); }
